@@ -39,10 +39,15 @@ def gen_case(rng, tier):
         col = [rng.randrange(nlab) for _ in range(n)]
         if rng.random() < 0.2:
             col[rng.randrange(n)] = None
-        kind = rng.choice([k for k in ["int", "float", "str", "cat", "cat", "dt"] if api.kind_ok(col, k)])
+        if rng.random() < 0.15:
+            # a key holding ONE label only (plus possibly a null): for booleans / categoricals / enums the grouping
+            # knows labels no row has
+            one = rng.randrange(2)
+            col = [None if r is None else one for r in col]
+        kind = rng.choice([k for k in ["int", "float", "str", "cat", "cat", "dt", "bool", "enum"] if api.kind_ok(col, "cat" if k == "enum" else k)])
         keycols.append(col); kinds.append(kind)
-        catorders.append(rng.choice(CAT_ORDERS) if kind == "cat" else None)
-        names.append(rng.choice([f"key{j}", f"key{j}", None]))
+        catorders.append(rng.choice(CAT_ORDERS) if kind in ("cat", "enum") else None)
+        names.append(f"key{j}" if kind == "enum" else rng.choice([f"key{j}", f"key{j}", None]))   # a polars Series always has a name
     if layout != "random":
         # rows sorted by the raw key VALUES (text order for strings/categoricals): a pre-sorted frame
         def rowkey(i):
@@ -69,6 +74,10 @@ def gen_case(rng, tier):
 
 
 def make_key(col, kind, catorder, name):
+    if kind == "enum":
+        # polars Enum: the declared categories (in category order) include values no row has
+        cats_by_pos = sorted(range(4), key=lambda r: catorder[r])
+        return pl.Series(name or "", [None if r is None else api.STR[r] for r in col], dtype=pl.Enum([api.STR[r] for r in cats_by_pos]))
     if kind == "cat":
         cats_by_pos = sorted(range(4), key=lambda r: catorder[r])          # rank at each category position
         cat = pd.Categorical.from_codes([-1 if r is None else catorder[r] for r in col], categories=[api.STR[r] for r in cats_by_pos])
@@ -78,14 +87,16 @@ def make_key(col, kind, catorder, name):
 
 
 def order_key(t, kinds, catorders):
-    return tuple((catorders[j][r] if kinds[j] == "cat" else r) for j, r in enumerate(t))
+    # category order: pandas Categoricals everywhere; a polars Enum as a single key (with several keys its level of the
+    # result index is a plain string level, ordered by value like the levels of arrow-dictionary keys)
+    return tuple((catorders[j][r] if (kinds[j] == "cat" or (kinds[j] == "enum" and len(kinds) == 1)) else r) for j, r in enumerate(t))
 
 
 def all_labels(c):
     """every label the grouping knows: observed key values, and every category for categoricals"""
     per_key = []
     for col, kind in zip(c["keycols"], c["kinds"]):
-        per_key.append(list(range(4)) if kind == "cat" else sorted({r for r in col if r is not None}))
+        per_key.append(list(range(4)) if kind in ("cat", "enum") else [0, 1] if kind == "bool" else sorted({r for r in col if r is not None}))
     return per_key
 
 
@@ -156,7 +167,7 @@ def run_case(GroupBy, c):
     if list(out.index.names) != c["names"]:
         viol.append(dict(sig={**sig, "what": "index-names"}, what="index levels are not named after the keys", observed=str(list(out.index.names)), expected=str(c["names"])))
     # ---- labels and order
-    got_labels = api.index_to_ranks(out.index, c["kinds"])
+    got_labels = api.index_to_ranks(out.index, ["cat" if k == "enum" else k for k in c["kinds"]])
     codes, labels = api.logical_codes(c["keycols"])
     sel = set(selected_positions(n, c["mask"]))
     observed = {labels[codes[i]] for i in sel if codes[i] >= 0}
@@ -176,7 +187,9 @@ def run_case(GroupBy, c):
         viol.append(dict(sig={**sig, "what": "labels"}, what="the labels listed are not the expected ones", observed=str(got_labels), expected=str(sorted(want_set))))
         return viol
     all_cat = all(k == "cat" for k in c["kinds"])
-    if c["sort"] or (nkeys == 1 and c["kinds"][0] == "cat"):
+    # a boolean key is factorized like a two-category categorical [False, True]: fixed label universe (what
+    # observed_only=False lists) and category order also with sort=False
+    if c["sort"] or (nkeys == 1 and c["kinds"][0] in ("cat", "enum", "bool")):
         want_order = sorted(got_labels, key=lambda t: order_key(t, c["kinds"], c["catorders"]))
         if got_labels != want_order:
             viol.append(dict(sig={**sig, "what": "order"}, what="labels are not in ascending key order (category order for categoricals)", observed=str(got_labels), expected=str(want_order)))
